@@ -60,7 +60,10 @@ class Statistics:
         # TODO: Add DOF
         # http://stats.stackexchange.com/questions/6534/how-do-i-calculate-a-weighted-standard-deviation-in-excel
         if self.weight > 0:
-            return (self.sum2 - self.sum**2 / self.weight) / self.weight
+            variance = (self.sum2 - self.sum**2 / self.weight) / self.weight
+            if variance < 0:
+                variance = 0.0  # (Rounding residue of identical values; NaN stays NaN)
+            return variance
         return np.nan
 
     def __add__(self, other: Any) -> Statistics:
